@@ -155,6 +155,12 @@ def judge_line(rec, line, seen, origin):
             rec.cls("reject:E_multiword")
 
 
+def extra(p, kind):
+    # "decoded as a lane/flag datum with exactly those integers": the lane index is visible as the note's lanes, the length as
+    # its sustain — a track that decodes the line correctly and then alters the integers still fails the statement
+    return (p == "C03" and kind in ("sustain", "longest", "end_tick")) or (p == "C02" and kind == "lanes")
+
+
 def section_route(rec, rng, pool_reject):
     """a hostile, padded chart + must-reject lines sprinkled into its instrument sections"""
     case = gen.gen_chart(rng, "hostile", n_tracks=rng.choice([1, 2]), n_groups=rng.choice([3, 20]), pad=rng.random() < 0.5, n_globals=0,
@@ -193,8 +199,8 @@ def section_route(rec, rng, pool_reject):
         case["truth"]["globals"] = [[t, "text", v] for t, _, v in shared]
         rec.cls("line_text_shared_with_events_section")
     c = {"text": gen.render_sections(secs), "truth": case["truth"]}
-    out, ob, d = mcheck.judge(rec, ("C07",), c)
-    if d is not None and not d.of("C07"):
+    out, ob, d = mcheck.judge(rec, ("C07",), c, extra=extra)
+    if d is not None and not mcheck.select(d, ("C07",), extra):
         rec.cls("section_route")
 
 
@@ -236,4 +242,4 @@ def replay(case, rec):
     if "line" in case:
         judge_line(rec, case["line"], set(), "replay")
     else:
-        mcheck.replay_case(rec, ("C07",), case)
+        mcheck.replay_case(rec, ("C07",), case, extra)
